@@ -7,6 +7,8 @@ Definition is_recv (e : logentry N) : bool := match e with LMcMessageReceived _ 
 Definition is_fired (e : logentry N) : bool := match e with LMcTimerFired _ _ => true | _ => false end.
 Definition recv_by (e : logentry N) (p : N) : bool :=
   match e with LMcMessageReceived _ _ dst => N.eqb dst p | _ => false end.
+Definition involves (e : logentry N) (p : N) : bool :=
+  match e with LMcMessageReceived _ src dst => N.eqb dst p || N.eqb src p | _ => false end.
 
 Section Battery.
   Variables n0 n1 : N.            (* the nodes of processes 0 and 1 *)
@@ -32,6 +34,9 @@ Section Battery.
     map (fun k => ob (prune_sent_messages_limit k s)) [0; 1; 2] ++
     map (fun l => ob (prune_events_limit is_recv l s)) [O; 1; 3]%nat ++
     map (fun l => ob (prune_events_limit_per_proc recv_by [0; 1] l s)) [O; 1; 2]%nat ++
+    map (fun l => ob (prune_events_limit_per_proc involves [0; 1] l s)) [1; 2]%nat ++
+    map (fun l => ob (prune_events_limit_per_proc involves [1; 0] l s)) [1; 2]%nat ++
+    [ob (prune_events_limit_per_proc involves [2; 1; 0] 1%nat s)] ++
     map (fun n => ob (prune_event_happened_n_times_current_run is_recv n s)) [1; 2]%nat ++
     [ob (prune_proc_permutations [0; 1] s); ob (prune_proc_permutations [1; 0] s);
      ob (prune_proc_permutations [0; 1; 2] s); ob (prune_proc_permutations [2; 0] s)] ++
